@@ -138,4 +138,46 @@ CHECKS["C16"] = {
             "numpy-elementwise); list coercion and reshape/transposes are covered by the bounded driver only",
     "technique": TECH,
 }
+BTECH = ("bounded stand-in on the real package (enumeration + seeded generation against an oracle written from the "
+         "statement) + the contract-based proof obligations (ast->VC->z3) available for the functions it depends on")
+BNOTE = ("; the bounded driver is a stand-in, labelled bounded and never counted as proved: it covers the stated "
+         "enumeration only; " + TRUST)
+
+
+def _b(pid, text):
+    CHECKS[pid] = {"category": "other", "text": text, "note": "bound stated in the evidence file" + BNOTE,
+                   "technique": BTECH}
+
+
+_b("C09", "bounded: all 9 built-in equivalences x all 32 ordered member-dimension branches x 5x5 (thorough: all) input/target "
+          "units x keyword parameters x 9 call forms, value against the closed-form formula evaluated independently on SI "
+          "magnitudes, there-and-back, via-intermediate, copy purity, in-place = copy, uncovered requests refused; proved "
+          "(unbounded): the final unit conversion preserves the quantity and the copying routes never write their input. The "
+          "_convert formula branches are not yet under contract (they go through out= ufunc forms)")
+_b("C10", "bounded: 7 built-in + pinned + generated user unit systems and code-unit registries x all 145 table atoms x "
+          "compounds: same quantity, atoms inside the system, back conversion, agreement with get_base_equivalent and the "
+          "in-place twins, idempotence, immediate usability, rejection of inconsistent bases; proved (unbounded): the numeric "
+          "conversion step preserves the SI magnitude for all scales. The synthesis of the target unit is sympy factorisation: "
+          "out of the verifier's reach")
+_b("C11", "bounded: 21 restoration routes (pickle protocols, copies, savetxt/loadtxt, str/repr re-parse, JSON) x registries x "
+          "about 150 follow-up operations on original and restored objects in both orders; proved (unbounded): the special "
+          "cases of Unit.__str__/__repr__ that persistence stores. Pickle / deepcopy / sympy identity are outside the "
+          "verifier's Python subset")
+_b("C12", "bounded: ALL histories of registry edits and observations up to length 3-4 (thorough 5-6) over a 3-symbol alphabet, "
+          "compared after every step with a fresh registry holding the net table, plus random histories of length 40 and "
+          "twin-registry memo checks; proved (unbounded): _lookup_unit_symbol writes exactly the row of the requested "
+          "prefixed symbol with scale = prefix x base and leaves the table unchanged when it raises")
+_b("C13", "bounded: operations on 2-3 registries created by ten routes (aliasing lut=, JSON, pickle, deepcopy, Unit.copy, ...) "
+          "with digests of every other registry, the default table, namespace exports and built-in conversions after each "
+          "step, each scenario in its own process; proved (unbounded): frame of _lookup_unit_symbol (writes only the table "
+          "passed in)")
+_b("C19", "bounded: allclose_units / assert_* / np.isclose / np.allclose / array_equal / accepts / returns over tolerance "
+          "scenarios fixed in SI magnitudes and written in every unit pair of 7 dimension groups, tolerances bare / "
+          "dimensionless / commensurable / incommensurable, decorators over all 62 exported dimensions; proved (unbounded): "
+          "Unit.__eq__ and same_dimensions_as decide by scale, offset and dimension vector only")
+_b("C20", "bounded: 28k (thorough 345k) strings from a grammar generator, token mutations and byte fuzz in four registries with "
+          "an independent tokenizer as vocabulary oracle and canaries against code execution; print/parse round trip over all "
+          "4191 names and random unit arithmetic; proved (unbounded): _split_prefix / _lookup_unit_symbol raise only "
+          "UnitParseError for every string and every table, Unit.__str__/__repr__ special cases. sympy's parser and printer "
+          "are outside the verifier's reach")
 NOT_APPLICABLE = {}
